@@ -369,6 +369,20 @@ class Peer:
         self.passkey = n & 0xffffffff
         return self.send("passkey %d" % n)
 
+    def preload_bond(self, a, ediv, rnd, kb):
+        """the application's bond data base already holds a bond for peer a under (ediv, rnd), key kb x 16"""
+        self.bonds.append((a & 0xff, rnd, ediv & 0xffff))
+        return self.send("bond %d %d %d %d" % (a & 0xff, ediv & 0xffff, rnd, kb & 0xff))
+
+    def ask_all(self, extra=()):
+        """key requests for the pairing key's identifiers, for every bond seen / pre-loaded and near misses"""
+        ids = [(0, 0), (0, 1), (1, 0)] + [(e, r) for _, r, e in self.bonds] + list(extra)
+        seen = set()
+        for e, r in ids:
+            if (e, r) not in seen:
+                seen.add((e, r))
+                self.send("key %d %d" % (e, r))
+
     # ---- complete exchanges
     def pair_legacy(self, io=None, oobflag=0, good=True):
         self.request(False, io=io, oobflag=oobflag)
@@ -490,7 +504,23 @@ def link_ops(peer, rng):
     """what the link layer / application do between pairing steps: key requests (also for stored bonds),
     encryption changes, output polls, status queries, reconnects"""
     r = rng.random()
-    if r < 0.28:
+    if r < 0.06:
+        # bond data base contents that collide with the identifiers of the pairing's own key (EDIV 0 / Rand 0,
+        # e.g. an old LESC bond), half collisions, or the identifiers of a bond stored a moment ago
+        a = peer.peer if rng.random() < 0.7 else rng.choice([0, 1, 2, 3])
+        k = rng.random()
+        if k < 0.45:
+            e, rn = 0, 0
+        elif k < 0.6:
+            e, rn = 0, rng.choice([1, 2 ** 32, 2 ** 40 + 5])
+        elif k < 0.75:
+            e, rn = rng.choice([1, 256, 65535]), 0
+        elif peer.bonds:
+            _, rn, e = rng.choice(peer.bonds)
+        else:
+            e, rn = rng.randrange(65536), rng.randrange(2 ** 32)
+        peer.preload_bond(a, e, rn, rng.choice([0x11, 0x22, 0xee]))
+    elif r < 0.28:
         if peer.bonds and rng.random() < 0.6:
             _, rnd, ediv = rng.choice(peer.bonds)
             k = rng.random()
